@@ -109,6 +109,15 @@ type PipePoint struct {
 
 // Point feeds one raw metric (integer value v, timestamp ts) and updates the state.
 func (p *Pipe) Point(s *PipeState, name string, v int64, ts int64) PipePoint {
+	return p.point(s, name, v, ts, false)
+}
+
+// PointTooOld is Point for a timestamp older than every bucket the aggregations still accept.
+func (p *Pipe) PointTooOld(s *PipeState, name string, v int64, ts int64) PipePoint {
+	return p.point(s, name, v, ts, true)
+}
+
+func (p *Pipe) point(s *PipeState, name string, v int64, ts int64, tooOld bool) PipePoint {
 	m := p.memo[name]
 	if m == nil {
 		m = &pipeMemo{o: p.Table.Dispatch(name), keys: make([]string, len(p.Rules))}
@@ -125,6 +134,11 @@ func (p *Pipe) Point(s *PipeState, name string, v int64, ts int64) PipePoint {
 	o := m.o
 	pp := PipePoint{Outcome: o, Line: o.Name + " " + strconv.FormatInt(v, 10) + " " + strconv.FormatInt(ts, 10), Keys: m.keys}
 	if o.Blacklisted {
+		return pp
+	}
+	if tooOld {
+		// older than every open bucket: the aggregations that take it count it as too old and keep
+		// nothing; what happens to the raw metric (consumed, routed) does not depend on its age
 		return pp
 	}
 	for i, took := range o.AggSeen {
